@@ -365,6 +365,7 @@ class Case(object):
         self.tag = tag
         self.stats = stats or {}
         self.consistent = consistent      # inside the domain the properties quantify over
+        self.oma = False                  # load with species_resolve_mode="OMA"
 
     def named_tree(self):
         return self.tree if self.use_internal else synth_names(self.tree)
@@ -709,3 +710,87 @@ def enum_cases(max_leaves=3, max_dups=1, max_copies=2, cap=None, rng=None):
     if cap is not None and len(out) > cap and rng is not None:
         out = rng.sample(out, cap)
     return out
+
+
+# ---------------------------------------------------------------- species_resolve_mode="OMA"
+CODE_FIRST = 'ABCDEFGHIJKLMNOPQRSTUVWXYZ'
+CODE_REST = CODE_FIRST + '0123456789'
+
+
+def rand_code(rng, used):
+    while True:
+        c = rng.choice(CODE_FIRST) + ''.join(rng.choice(CODE_REST) for _ in range(4))
+        if c not in used:
+            used.add(c)
+            return c
+
+
+def near_code(rng, used):
+    """names that just miss the code pattern [A-Z][A-Z0-9]{4} of length five"""
+    while True:
+        c = rng.choice(CODE_FIRST) + ''.join(rng.choice(CODE_REST) for _ in range(4))
+        k = rng.randrange(4)
+        c = [c.lower(), c + 'X', c[:4], rng.choice('0123456789') + c[1:]][k]
+        if c not in used:
+            used.add(c)
+            return c
+
+
+def copy_tree(t):
+    return T(t.name, [copy_tree(c) for c in t.kids])
+
+
+def oma_variant(rng, c):
+    """the case as an OMA-style input: some species names sit on an internal node above their code-named
+    leaf (resolved by the OMA rule), some of those nodes are made ambiguous or code-less (must be rejected).
+    Returns the new case (histories dropped: leaf paths change)."""
+    t = copy_tree(c.tree)
+    used = set(n.name for n in t.nodes())
+    kinds = {}
+
+    def go(n):
+        for i, k in enumerate(n.kids):
+            if k.kids:
+                go(k)
+                continue
+            r = rng.random()
+            if r < 0.35:
+                kind = rng.choice(['unique', 'unique', 'unique+plain', 'unique+near', 'two-codes', 'no-code', 'code-internal'])
+                if kind == 'unique':
+                    kids = [T(rand_code(rng, used))]
+                elif kind == 'unique+plain':
+                    kids = [T(rand_code(rng, used)), T('q%d' % len(used))]
+                    used.add(kids[1].name)
+                elif kind == 'unique+near':
+                    kids = [T(near_code(rng, used)), T(rand_code(rng, used))]
+                elif kind == 'two-codes':
+                    kids = [T(rand_code(rng, used)), T(rand_code(rng, used))]
+                elif kind == 'no-code':
+                    kids = [T(near_code(rng, used))]
+                else:
+                    kids = [T(rand_code(rng, used), [T(near_code(rng, used)), T(near_code(rng, used))])]
+                n.kids[i] = T(k.name, kids)
+                kinds[k.name] = kind
+            elif r < 0.5:
+                # the leaf itself carries a code: nothing to resolve
+                new = rand_code(rng, used)
+                kinds[k.name] = 'leaf-code'
+                rename[k.name] = new
+                k.name = new
+    rename = {}
+    go(t)
+    t.set_paths()
+    species = [(rename.get(n, n), gs) for n, gs in c.species]
+
+    def ren(it):
+        if it[0] == 'prop' and it[1] == 'TaxRange':
+            return ('prop', 'TaxRange', rename.get(it[2], it[2]))
+        if it[0] == 'og':
+            return ('og', it[1], it[2], [ren(x) for x in it[3]])
+        if it[0] == 'pg':
+            return ('pg', it[1], [ren(x) for x in it[2]])
+        return it
+    v = Case(t, species, [ren(g) for g in c.groups], c.use_internal, None, c.singles, 'oma', dict(c.stats), c.consistent)
+    v.oma = True
+    v.oma_kinds = kinds
+    return v
